@@ -16,6 +16,18 @@ def q(name):
     return QUAL.get(name, name) if QUALIFIED_SPELLING else name
 
 
+# when set, generic argument lists and tuples are laid out the way rustfmt wraps a type that does not fit the line:
+# one argument per line and a trailing comma - the same type, a different token layout
+WRAPPED_LAYOUT = False
+
+
+def args(xs):
+    """the text between < > or ( ) for the argument spellings xs"""
+    if WRAPPED_LAYOUT:
+        return "\n        " + ",\n        ".join(xs) + ",\n    "
+    return ", ".join(xs)
+
+
 class Speller:
     """Assigns concrete spellings to leaf classes (rotating, deterministic) and names to named leaves."""
 
@@ -73,27 +85,27 @@ def spell(t, sp):
         return t["n"]
     a = spell(t["a"], sp) if "a" in t else None
     if k == "opt":
-        return "%s<%s>" % (q("Option"), a)
+        return "%s<%s>" % (q("Option"), args([a]))
     if k == "vec":
-        return "%s<%s>" % (q("Vec"), a)
+        return "%s<%s>" % (q("Vec"), args([a]))
     if k == "hset":
-        return "%s<%s>" % (q("HashSet"), a)
+        return "%s<%s>" % (q("HashSet"), args([a]))
     if k == "bset":
-        return "%s<%s>" % (q("BTreeSet"), a)
+        return "%s<%s>" % (q("BTreeSet"), args([a]))
     if k == "ref":
         return "&'static %s" % a if not a.startswith("&") else "&'static %s" % a
     if k == "res1":
-        return ("anyhow::Result<%s>" if QUALIFIED_SPELLING else "Result<%s>") % a
+        return ("anyhow::Result<%s>" if QUALIFIED_SPELLING else "Result<%s>") % args([a])
     if k == "chan":
         return "Channel<%s>" % a
     if k in ("hmap", "bmap", "res"):
         b = spell(t["b"], sp)
-        return q({"hmap": "HashMap", "bmap": "BTreeMap", "res": "Result"}[k]) + "<%s, %s>" % (a, b)
+        return q({"hmap": "HashMap", "bmap": "BTreeMap", "res": "Result"}[k]) + "<%s>" % args([a, b])
     if k == "tup":
         parts = [spell(x, sp) for x in t["ts"]]
         if len(parts) == 1:
             return "(%s,)" % parts[0]
-        return "(%s)" % ", ".join(parts)
+        return "(%s)" % args(parts)
     raise ValueError(k)
 
 
